@@ -1718,22 +1718,22 @@ func hbClass(t uint64) string {
 // C35: plan
 
 type hbFrame struct {
-	typ      uint64
-	payload  []byte
-	typW     int   // varint widths (0 = minimal)
-	lenW     int
-	lenOver  int64 // >= 0: declared length instead of len(payload)
-	bounds   []int // HEADERS: offsets in payload at which a field line ends (incl. 2 = after the prefix)
-	role     string
+	typ     uint64
+	payload []byte
+	typW    int // varint widths (0 = minimal)
+	lenW    int
+	lenOver int64 // >= 0: declared length instead of len(payload)
+	bounds  []int // HEADERS: offsets in payload at which a field line ends (incl. 2 = after the prefix)
+	role    string
 }
 
 type hbExpect struct {
-	verdict string // strict, must_error, latitude
-	why     string
-	body    []byte // concatenation of the DATA payloads a consumer may be handed, in order
-	hdrCut  bool   // must_error because the first HEADERS frame is truncated / over-read: the message must not be accepted at all
-	unknown int    // complete unknown-type frames in legal positions (must be skipped)
-	unkPre  int    // ... of which before the first HEADERS
+	verdict       string // strict, must_error, latitude
+	why           string
+	body          []byte // concatenation of the DATA payloads a consumer may be handed, in order
+	hdrCut        bool   // must_error because the first HEADERS frame is truncated / over-read: the message must not be accepted at all
+	unknown       int    // complete unknown-type frames in legal positions (must be skipped)
+	unkPre        int    // ... of which before the first HEADERS
 	ctrlMustClose bool
 }
 
@@ -1748,7 +1748,7 @@ type hbStream struct {
 	resetCode uint64
 	readSizes []int
 	stepped   int
-	post      int // client mode: request body bytes (0 = GET)
+	post      int               // client mode: request body bytes (0 = GET)
 	valid     map[string]string // payload -> "req", "resp", "info", "trailers", "settings"
 	overread  map[string]bool   // HEADERS payloads that are a valid section cut inside a field line
 	exp       hbExpect
@@ -2468,7 +2468,7 @@ type hbOutcome struct {
 	got      []byte
 	readErr  error // terminal error of the body reader (io.EOF = clean end)
 	readDone bool
-	rtErr    error // client mode: RoundTrip error
+	rtErr    error  // client mode: RoundTrip error
 	respRaw  []byte // server mode: what the peer read back on the request stream
 	respErr  error
 	respDone bool
@@ -3160,6 +3160,10 @@ func (r *hbRun) final(harness *string) *vs.Violation {
 			vs.G.Inc("run.conn_closed_other")
 		}
 	}
+	side := "srv"
+	if p.mode == "client" {
+		side = "cli"
+	}
 	all := append(append([]*hbStream(nil), p.streams...), p.resps...)
 	allStrict := true
 	for _, st := range all {
@@ -3167,15 +3171,11 @@ func (r *hbRun) final(harness *string) *vs.Violation {
 			allStrict = false
 		}
 	}
-	side := "srv"
-	if p.mode == "client" {
-		side = "cli"
-	}
 	if hnTimeoutDeath(state) {
 		// A connection that idled out is a QUIC-level matter (flow-control stall,
 		// lost CONNECTION_CLOSE), not a statement about HTTP/3 framing: counted only.
 		vs.G.Inc("run.conn_died_" + state)
-		if os.Getenv("VERIF_H3NET_JUDGE_IDLE") != "" {
+		if os.Getenv("VERIF_H3NET_JUDGE_IDLE") != "" && state == "idle_timeout" && allStrict && p.faults.LossPct == 0 {
 			return vs.Violf("C35", "idle_stall", "quic:idle_stall", "the connection died of %s although the peer had bytes to send and the reader was waiting for them", state)
 		}
 		return nil
